@@ -163,6 +163,11 @@ Definition typ_code (t : mtype) : option N :=
   match t with MInvalid => None | MCall => Some 1 | MReply => Some 2 | MError => Some 3 | MSignal => Some 4 end.
 
 Definition MAX_MESSAGE_LEN : N := 2^27.
+Definition MAX_ARRAY_LEN : N := 2^26.
+
+(* util::check_marshalled_array_len(len): Err(ArrayTooLong) above the protocol limit, else len as u32 *)
+Definition check_marshalled_array_len (l : N) : outcome N :=
+  if MAX_ARRAY_LEN <? l then Err else Ok (l mod 2^32).
 
 Section Marshal.
   (* The bytes the sequence of marshal_header_* calls appends to a buffer of length 16 (reply serial,
@@ -190,7 +195,8 @@ Section Marshal.
         | Some fs =>
             let buf := buf ++ fs in
             let l := len buf - pos - 4 in
-            insert_u32_at bo (l mod 2^32) pos buf     (* len as u32 *)
+            do l <- check_marshalled_array_len l;     (* the header fields are an array *)
+            insert_u32_at bo l pos buf
         end
     end.
 
@@ -246,15 +252,41 @@ Section Marshal.
   (* SendMessageContext::serial *)
   Definition ctx_serial (x : send_ctx) : N := st_serial (cx_state x).
 
+  (* SendMessageContext::into_progress: copies the state, force_finish = mem::forget (no Drop) *)
+  Definition into_progress (x : send_ctx) : send_state := cx_state x.
+
+  (* SendMessageContext::resume(conn, msg, progress) *)
+  Definition resume (c : send_conn) (m : message) (progress : send_state) : send_ctx :=
+    {| cx_conn := c; cx_msg := m; cx_state := progress |}.
+
   (* ---------------------------------------------------------------- histories (C13) *)
 
-  Inductive op := OpAlloc | OpSend (m : message).
+  (* k calls of alloc_serial in a row *)
+  Fixpoint alloc_n (k : nat) (c : send_conn) : outcome (send_conn * list N) :=
+    match k with
+    | O => Ok (c, [])
+    | S k =>
+        do sc <- alloc_serial c;
+        let '(s, c) := sc in
+        do r <- alloc_n k c;
+        let '(c, ss) := r in
+        Ok (c, s :: ss)
+    end.
+
+  (* OpSendResumed m k: send_message(m), some bytes written, into_progress; k calls of alloc_serial
+     while the send is suspended (the only use of the connection that is allowed then: another
+     send_message would overwrite header_buf); resume(conn, m, progress), written to the end.
+     When send_message fails there is nothing to suspend; the k allocations still happen. *)
+  Inductive op := OpAlloc | OpSend (m : message) | OpSendResumed (m : message) (k : nat).
 
   (* what the caller and the peer observe *)
   Inductive event :=
   | EvAlloc (s : N)                                   (* alloc_serial returned s *)
   | EvSent (preset : option N) (reported : N) (hb : list N)   (* send_message -> ctx; ctx.serial(); header on the wire *)
-  | EvSendErr (preset : option N).                    (* send_message returned Err *)
+  | EvSendErr (preset : option N) (between : list N)  (* send_message returned Err (then, for OpSendResumed, the k allocations) *)
+  | EvSentResumed (preset : option N) (between : list N) (reported : N) (hb : list N).
+      (* as EvSent for a send that was suspended and resumed: the serials alloc_serial returned in
+         between, the serial of the resumed context (what write() returns), the header it transmits *)
 
   Definition step (c : send_conn) (o : op) : outcome (send_conn * event) :=
     match o with
@@ -264,7 +296,19 @@ Section Marshal.
         let '(c, x) := r in
         match x with
         | Some x => Ok (c, EvSent (dh_serial (msg_dyn m)) (ctx_serial x) (header_buf (cx_conn x)))
-        | None => Ok (c, EvSendErr (dh_serial (msg_dyn m)))
+        | None => Ok (c, EvSendErr (dh_serial (msg_dyn m)) [])
+        end
+    | OpSendResumed m k =>
+        do r <- send_message c m;
+        let '(c, x) := r in
+        let progress := option_map into_progress x in
+        do a <- alloc_n k c;
+        let '(c, between) := a in
+        match progress with
+        | Some progress =>
+            let x := resume c m progress in
+            Ok (c, EvSentResumed (dh_serial (msg_dyn m)) between (ctx_serial x) (header_buf (cx_conn x)))
+        | None => Ok (c, EvSendErr (dh_serial (msg_dyn m)) between)
         end
     end.
 
